@@ -121,6 +121,7 @@ def build_request(i, m="GET", ver=11, conn="-", expect=False, framing=None, extr
             bad_txt = {"size-alpha": "zz\r\n", "size-empty": "\r\n\r\n", "size-overflow": "fffffffffffffffff\r\n",
                        "size-neg": "-1\r\n", "no-crlf-after-data": "2\r\nabXX", "lf-only": "2\nab\r\n",
                        "size-space-digit": "2 2\r\nabcd\r\n", "ext-cr": "2;a\rb\r\nab\r\n", "size-0x": "0x2\r\nab\r\n",
+                       "ext-lf": "2;name=a\nbcdef\r\nab\r\n", "ext-ctl": "2;name=a\x1fbcdef\r\nab\r\n",
                        "last-no-crlf": "0\r\nXY"}[cls]
             body_parts.append({"s": bad_txt, "bad": True})
         else:
@@ -240,7 +241,7 @@ def add_epilogue(case, ticks=None):
 BAD_HEAD = ["cl+te", "te+cl", "dupcl", "dupcl-diff", "cl-list", "badcl-plus", "badcl-alpha", "badcl-neg", "badcl-empty", "badcl-huge",
             "badte-gzip", "badte-gzip-chunked", "badte-chunked-gzip", "badte-x", "dupte", "te-identity-cl"]
 BAD_CHUNK = ["size-alpha", "size-empty", "size-overflow", "size-neg", "no-crlf-after-data", "lf-only", "size-space-digit", "ext-cr",
-             "size-0x", "last-no-crlf"]
+             "size-0x", "last-no-crlf", "ext-lf", "ext-ctl"]
 
 
 def rand_req(rnd, allow_bad=False, big=False):
